@@ -123,7 +123,10 @@ def canvases(draw, rows_only=False):
         "bg_rgb": draw(gen.rgb),
         "bg_k": draw(st.integers(0, 3)),
         "ratio": draw(st.sampled_from([0.5, 0.5, 0.5, 0.3, 1.0])),
-        "size": [draw(st.integers(1, 24))] if flow else [draw(st.integers(1, 24)), draw(st.integers(1, 12))],
+        # (now and then a very wide box canvas: blank runs of several hundred columns)
+        "size": [draw(st.integers(1, 24))] if flow else
+                [draw(st.sampled_from([257, 300, 520])), draw(st.integers(1, 3))] if draw(st.integers(0, 13)) == 0 else
+                [draw(st.integers(1, 24)), draw(st.integers(1, 12))],
         "h": draw(st.sampled_from([None, "<", "|", ">", "<", ">"])),
         "v": draw(st.sampled_from([None, "^", "-", "_", "^", "_"])),
         "pw": draw(st.sampled_from([None, None, 1, 7, 200])),
@@ -462,7 +465,7 @@ def _check_trim(c, rec, image, w, spec, Screen):
             rects.append(r)
             via.append(i < c["composite"])
         k = 0
-        for tl in range(W):  # every horizontal cut, on short windows taken from the samples
+        for tl in range(W if W <= 64 else 0):  # every horizontal cut, on short windows taken from the samples
             for cc in range(1, W - tl + 1):
                 _, tt, _, rr = sampled[k % N_SAMPLED]
                 k += 1
@@ -475,7 +478,7 @@ def _check_trim(c, rec, image, w, spec, Screen):
                     k += 1
                     rects.append((tl, tt, cc, rr))
                     via.append(False)
-    rec.label(f"style:{style}", "flow" if flow else "box", "small_all" if small else "large_sampled",
+    rec.label(f"style:{style}", "flow" if flow else "box", "small_all" if small else "large_sampled", *(["very_wide"] if W > 64 else []),
               f"h:{c['h']}", f"v:{c['v']}", "upscale" if c["upscale"] else "noupscale",
               "hpad" if pl or pr else "nohpad", "vpad" if pt or pb else "novpad",
               "multirun" if any(runs2) else "singlerun", f"profile:{profile}", f"method:{method}")
